@@ -99,7 +99,7 @@ def ticksizeOf (q : Option Int) : Int :=
 /-- `libxmp_mixer_prepare`: guard applied to the value of `libxmp_mixer_get_ticksize`
 (which is −1 for invalid parameters). -/
 def prepareTicksize (t : Int) : Nat :=
-  if t < 0 ∨ t > (maxFramesize / 2 : Nat) then maxFramesize / 2 else t.toNat
+  if t < 0 ∨ t > (ticksizeCap : Nat) then ticksizeCap else t.toNat
 
 /-- number of accumulators consumed by the final stage ("Render final frame"):
 `size = ticksize; if (~format & MONO) size *= 2; if (size > XMP_MAX_FRAMESIZE) size = XMP_MAX_FRAMESIZE` -/
